@@ -457,3 +457,29 @@ def np_outer(interp, a, b):
     dt = T.promote(a.dtype, b.dtype)
     mul = V.f_mul if dt == FLOAT else V.i_mul
     return _np(T.from_fn([a.shape[0], b.shape[0]], dt, lambda idx: mul(T.cast_scalar(ra([idx[0]]), dt), T.cast_scalar(rb([idx[1]]), dt)), kind="numpy"))
+
+
+@lib("numpy.nan_to_num", "torch.nan_to_num")
+def np_nan_to_num(interp, a, copy=True, nan=0.0, posinf=None, neginf=None):
+    """numpy/torch docs: NaN -> `nan` (default 0.0); +/-inf -> posinf/neginf (default: the largest
+    finite float -- not modelled: infinite inputs are Unsupported unless replacements are given)."""
+    a = _a(a) if not isinstance(a, STensor) else a
+    if a.dtype != FLOAT:
+        return a
+    if not isinstance(nan, (int, float)):
+        raise Unsupported("nan_to_num with a symbolic replacement")
+
+    def fn(x):
+        x = V.sfloat(x) if not isinstance(x, float) else x
+        if isinstance(x, float):
+            import math as _m
+
+            if _m.isinf(x) and (posinf is None or neginf is None):
+                raise Unsupported("nan_to_num of an infinite value (replacement is the dtype maximum)")
+            return float(nan) if _m.isnan(x) else (x if not _m.isinf(x) else float(posinf if x > 0 else neginf))
+        if x.inf is not False:
+            if not interp.path.provable(V.b_not(V.f_isinf(x))):
+                raise Unsupported("nan_to_num of a possibly infinite value (replacement is the dtype maximum)")
+        return V.f_ite(V.zbool(V.f_isnan(x)), float(nan), x)
+
+    return T.tunary(fn, a)
